@@ -1,6 +1,7 @@
 import Driver.Proto
 import Driver.C03
 import Verif.Spec.C09HtmlTok
+import Verif.Model.C09HtmlWalk
 /-! driver handlers for property C09, HTML slice (ops `spec.c09.html.*`) -/
 namespace Verif.Driver.C09Html
 open Verif Verif.Driver Verif.Spec.C09HtmlTok
@@ -43,7 +44,52 @@ def attrvalOp : Handler := fun args => do
   | some (raw, rest) => .ok (listReply [strBytes "ok", charsToBytes raw, decoded true raw, charsToBytes rest])
   | none => .ok (listReply [strBytes "none"])
 
+open Verif.Model.Html Verif.Model.C09HtmlWalk Verif.Spec.C09HtmlIntended in
+/-- which kind of step first falls outside the guard of `html_output_retokenises_partial` -/
+def whyLoop (o : Opts) (ext : Ext) (sub : Sub) : St → Phase → List HTok → String
+  | _, .data, [] => "ok"
+  | _, _, [] => "eof-in-raw-text"
+  | st, ph, t :: rest =>
+    match Verif.Model.Html.step o ext sub st t rest with
+    | .error _ => "error"
+    | .ok (st', out) =>
+      let c := classify ext ph t out
+      if c.1 then whyLoop o ext sub st' c.2.1 rest
+      else match ph, t with
+        | .data, .text _ _ => "text-unsafe-lt"
+        | .data, .comment _ _ => "comment"
+        | .data, .endTag _ _ => "end-tag"
+        | .data, .startTag _ _ => "start-tag"
+        | .data, .svg _ => "svg"
+        | .data, .math _ => "math"
+        | .data, .template _ => "template"
+        | .data, .doctype => "doctype"
+        | .rawStart _, .text _ _ => "raw-content"
+        | _, _ => "raw-element-shape"
+
+open Verif.Model.Html Verif.Model.C09HtmlWalk Verif.Spec.C09HtmlIntended in
+/-- `model.c09.html.walk optsMask subMode ext tokens` → `[model output, guard (1/0), does the standard's tokenizer read the
+    model output as the intended token stream (1/0), first kind of step outside the guard]`; the third is implied by the
+    second (`html_output_retokenises_partial`) -/
+def walkOp : Handler := fun args => do
+  let m ← argNat args 0
+  let subMode ← argNat args 1
+  let extG ← argGroups args 2
+  let toksG ← argGroups args 3
+  let ext ← extG.mapM (fun g => match g with
+    | [k, i, o] => .ok (bytesToChars k, bytesToChars i, bytesToChars o)
+    | _ => .error "bad ext group")
+  let toks ← toksG.mapM C03.decodeTok
+  let sub : Sub := if subMode = 0 then none else some C03.stubSub
+  let o := C03.optsOf m
+  match htmlMinify o ext sub toks, walk o ext sub {} .data toks with
+  | .ok out, .ok (g, ps) =>
+    .ok (listReply [charsToBytes out, boolBytes g, boolBytes (decide (tokens false out = intended ps)),
+      strBytes (whyLoop o ext sub {} .data toks)])
+  | .error e, _ => .error e
+  | _, .error e => .error e
+
 def handlers : List (String × Handler) :=
-  [("spec.c09.html.tokens", tokensOp), ("spec.c09.html.attrval", attrvalOp)]
+  [("spec.c09.html.tokens", tokensOp), ("spec.c09.html.attrval", attrvalOp), ("model.c09.html.walk", walkOp)]
 
 end Verif.Driver.C09Html
